@@ -334,6 +334,55 @@ pub fn run() -> i32 {
     par_fold(DEROM.len(), 1, Acc::default, |i, a| deromaniser_case(i, &wd, a), |a| td.merge(a));
     r.boxes.push(json!({"box": "deromanisers", "alias_sets": DEROM.len(), "words": wd.len(), "comparisons": td.evals, "both_ok": td.rewritten, "both_err": td.same, "skipped": td.skipped}));
     r.guard(td.rewritten > 1_000, "deromanisers: more than 1000 encoded words compared");
+    // romanisers act inside one syllable (no `$` alias here): a word prints as its syllables print on their own, joined by the default marks.
+    // Tone conditions are the interesting inputs: what one syllable's alias does to its tone digits must not reach the next syllable
+    let syl_aliases: Vec<Vec<&str>> = vec![vec!["a:[tone: 5] > X"], vec!["a:[tone: 5]m > X"], vec!["ma:[tone: 51] > Y"], vec!["V:[tone: 5] > +@{acute}"], vec!["[+nasal, tone: 5] > N"], vec!["a:[tone: 5] > X", "m > M"], vec!["m > M", "a:[tone: 51, +stress] > Z"], vec!["a:[+long, tone: 5] > L"], vec!["V:[+stress] > +@{acute}", "a:[tone: 3] > *"]];
+    let (sm, sa) = (seg("m"), seg("a"));
+    let mut sylls: Vec<CSyl> = vec![];
+    for segs in [vec![sm, sa], vec![sa], vec![sm, sa, sm], vec![sm, sa, sa]] { for tone in [0u16, 5, 51, 3] { for stress in [0u8, 1] { sylls.push(CSyl { segs: segs.clone(), stress, tone }); } } }
+    let mut syl_words: Vec<CW> = vec![];
+    for a in &sylls { for b in &sylls { syl_words.push(vec![a.clone(), b.clone()]); } }
+    for (k, a) in sylls.iter().enumerate() { for (l, b) in sylls.iter().enumerate() { for c in sylls.iter().skip((k + l) % 5).step_by(5) { syl_words.push(vec![a.clone(), b.clone(), c.clone()]); } } }
+    let mut tsy = Acc::default();
+    par_fold(syl_aliases.len(), 1, Acc::default, |i, a| {
+        let lines: Vec<String> = syl_aliases[i].iter().map(|x| x.to_string()).collect();
+        let Out::Ok(Ok(al)) = guarded(500_000, || av::compile_aliases(&[], &lines)) else { a.viols.push(Viol { key: format!("romaniser-rejected|{}", lines.join(" ;; ")), desc: format!("romaniser {:?} rejected", lines), case: json!({"kind": "syl"}) }); return; };
+        for w in &syl_words {
+            a.evals += 1;
+            let whole = guarded(500_000, || av::render_word(&word_of(w), Some(&al)));
+            let mut parts = String::new();
+            for (n, sy) in w.iter().enumerate() {
+                if n > 0 && sy.stress == 0 { parts.push('.'); }
+                match guarded(500_000, || av::render_word(&word_of(&vec![sy.clone()]), Some(&al))) { Out::Ok(t) => parts += &t, _ => { parts.clear(); break; } }
+            }
+            match whole {
+                Out::Ok(t) if t == parts => { if t != av::render_word(&word_of(w), None) { a.rewritten += 1; a.outs.insert(hash64(&t)); } else { a.same += 1; } }
+                Out::Ok(t) => a.viols.push(Viol { key: format!("romaniser-syllables|{}|{}", lines.join(" ;; "), show_cw(w)), desc: format!("romaniser {:?}: /{}/ prints as `{}`, its syllables on their own print as `{}` (default rendering `{}`)", lines, show_cw(w), t, parts, av::render_word(&word_of(w), None)), case: json!({"kind": "syl", "lines": lines, "word": cw_json(w)}) }),
+                o => a.viols.push(Viol { key: format!("romaniser-syllables|crash|{}", lines.join(" ;; ")), desc: o.crash_desc().unwrap(), case: json!({"kind": "syl", "lines": lines, "word": cw_json(w)}) }),
+            }
+        }
+    }, |a| tsy.merge(a));
+    r.boxes.push(json!({"box": "romanisers with tone / stress / length conditions: a word prints as its syllables print on their own", "alias_sets": syl_aliases.len(), "words": syl_words.len(), "comparisons": tsy.evals, "rewritten": tsy.rewritten, "unchanged": tsy.same}));
+    r.guard(tsy.rewritten > 2_000 && tsy.same > 500, "syllable-wise box: rewritten and unchanged words both occur");
+    // words typed in Americanist notation print in it by default; a romaniser that matches nothing in them (or only removes boundaries) leaves that rendering alone
+    let am_words = ["¢a", "ła.ña", "ƛa.λa", "ˈ¢a.ła", "t͡sa.ɬa"];
+    let am_aliases: Vec<(Vec<&str>, bool)> = vec![(vec!["b > B"], false), (vec!["[+nasal, +long] > +N"], false), (vec!["i:[+stress] > +@{acute}"], false), (vec!["$ > *"], true), (vec!["b > B", "$ > *"], true)];
+    let mut tam = Acc::default();
+    for (lines, strip) in &am_aliases { for wtxt in am_words { for rl in [RULES[0], RULES[1]] {
+        tam.evals += 1;
+        let ls: Vec<String> = lines.iter().map(|x| x.to_string()).collect();
+        let plain = guarded(budget_for(14, 60) * 2, || asca::run(&[group(rl)], &[wtxt.to_string()], &[], &[]).map_err(|e| format!("{:?}", e)));
+        let with = guarded(budget_for(14, 60) * 2, || asca::run(&[group(rl)], &[wtxt.to_string()], &[], &ls).map_err(|e| format!("{:?}", e)));
+        let want = match &plain { Out::Ok(Ok(v)) => Some(v.iter().map(|t| if *strip { let t = t.replace('.', ""); t.replace(['ˈ', 'ˌ'], "") } else { t.clone() }).collect::<Vec<_>>()), _ => None };
+        match (&with, want) {
+            (Out::Ok(Ok(v)), Some(w)) if *v == w => { tam.rewritten += 1; }
+            (_, None) => tam.skipped += 1,
+            (g, Some(w)) => tam.viols.push(Viol { key: format!("romaniser-americanist|{}|{}|{}", lines.join(" ;; "), rl.join(" ;; "), wtxt), desc: format!("romaniser {:?} matches nothing in `{}` (rules {:?}): the default rendering is {:?}, printed {:?}", lines, wtxt, rl, w, g), case: json!({"kind": "amer"}) }),
+        }
+    } } }
+    r.boxes.push(json!({"box": "Americanist words under romanisers that match none of their segments", "comparisons": tam.evals, "equal_to_default": tam.rewritten}));
+    tsy.merge(tam);
+    td.merge(tsy);
     // `+` deromanisers: every matrix x every word of W(I3,3) (long and overlong segments, stress, tone) x every segment position
     let wp: Vec<CW> = { let inv: Vec<SegBits> = ["t", "a", "n"].iter().map(|t| seg(t)).collect(); let mut v = vec![];
         for (k, w) in word_space(&inv, 3).into_iter().enumerate() { v.push(w.clone()); let mut x = w.clone(); for (i, sy) in x.iter_mut().enumerate() { sy.stress = ((k + i) % 3) as u8; sy.tone = [0, 5, 51][(k / 2 + i) % 3]; } v.push(x); } v };
